@@ -521,6 +521,8 @@ PROPS['C08'] = {
 def c09_witness(pid, fails, repo):
     if any(f.obligation.startswith(('shape:', 'sig:', 'wire:', 'index:', 'order:', 'ns:')) for f in fails):
         return l3_witness(pid, fails, repo)
+    if any(f.unit == 'D' for f in fails):
+        return c10_witness(pid, fails, repo)         # the namespace-table functions of doc.rs: sequences of registrations on the real table
     res = f_replay.search(repo)
     out = {'found': bool(res['anomalies']), 'prefix_lookups_run_on_real_code': res['lookups_checked']}
     if res['anomalies']:
@@ -533,8 +535,9 @@ def c09_witness(pid, fails, repo):
 
 
 PROPS['C09'] = {
-    'units': [UnitF], 'level': 'proof', 'design_ref': 'DESIGN.md 4.9', 'extra': l3_extra, 'witness': c09_witness,
-    'scope': '(L2, proof) field.rs split_type / resolve_type / as_rust_type and doc.rs find_namespace_by_abbreviation / '
+    'units': [UnitF, UnitD], 'level': 'proof', 'design_ref': 'DESIGN.md 4.9', 'extra': l3_extra, 'witness': c09_witness,
+    'scope': '(L2, proof) the prefix table of doc.rs (unit D, shared with C10: every registration keeps URI<->prefix a bijection and never changes an existing '
+             'binding) and field.rs split_type / resolve_type / as_rust_type and doc.rs find_namespace_by_abbreviation / '
              'find_module_name_from_namespace_reference: a QName is split at its first colon and its prefix is resolved through the document\'s '
              'prefix table only; (L3, per program) in corpus programs that reuse local names across namespaces, component kinds, files and '
              'declaration orders, every type=, base=, ref= and message-part reference in the emitted code is bound to the struct of the right module',
